@@ -13,9 +13,9 @@
    and [parse_ts] (ion.ParseTimestamp; its result is the canonical field tuple
    printed after `T`).  strconv.ParseFloat is not modelled: a parsed float is
    carried as its literal text (`Ftext<hex>`), only its syntax check is.
-   [kp] is what a *known* nil-dereference site answers: [Panic] for the code
-   that exists, [Err] for the variant used to state `no other panic`.
-   No proofs. *)
+   A type/value pair that the reader never builds (for instance type Int with a
+   string value, where Go's type assertion would panic) is treated like the nil
+   value of that type.  No proofs. *)
 From Coq Require Import String List NArith ZArith Bool.
 From IonV Require Import Base.Wire Bin.Bits Data.Ion Num.Float Bin.BitStream Bin.BinReader
   Text.Tokenizer Text.Skipper.
@@ -264,8 +264,6 @@ Definition neg_inf_bits : N := 18442240474082181120.   (* 0xFFF0000000000000 *)
 Section Reader.
 Variable parse_decimal : list N -> res dec.
 Variable parse_ts : list N -> res (list N).
-(* the answer of a known nil-dereference site (D02, D03) *)
-Variable kp : forall A : Type, res A.
 (* Reader.Next as seen from readLocalSymbolTable *)
 Variable api_next : xstate -> xstate * res bool.
 
@@ -358,7 +356,7 @@ Fixpoint read_import_loop (fuel : nat) (x : xstate) (d : impdecl) : xstate * res
           (if x_type x =? TString
            then match x_value x with
                 | XString t => read_import_loop f x {| id_name := t; id_version := id_version d; id_maxid := id_maxid d |}
-                | _ => (x, kp _)                           (* name = *val with val nil *)
+                | _ => read_import_loop f x d                (* val == nil: ignored *)
                 end
            else read_import_loop f x d)
         else if list_eqb fnm (s "version"%string) then
@@ -369,7 +367,7 @@ Fixpoint read_import_loop (fuel : nat) (x : xstate) (d : impdecl) : xstate * res
                   if negb (in_int64 z) then (x, Err)
                   else if negb (in_int32 z) then (x, Err)
                   else read_import_loop f x {| id_name := id_name d; id_version := z; id_maxid := id_maxid d |}
-                | _ => (x, kp _)                           (* IntValue on null.int dereferences nil *)
+                | _ => read_import_loop f x d                (* IntValue answers (nil, nil): ignored *)
                 end
            else read_import_loop f x d)
         else if list_eqb fnm (s "max_id"%string) then
@@ -380,7 +378,7 @@ Fixpoint read_import_loop (fuel : nat) (x : xstate) (d : impdecl) : xstate * res
                   let z := match iv with I64 z => z | IBig z => z end in
                   if negb (in_int64 z) then (x, Err)
                   else read_import_loop f x {| id_name := id_name d; id_version := id_version d; id_maxid := z |}
-                | _ => (x, Panic)
+                | _ => (x, Err)                              (* cannot occur: not null, type Int *)
                 end
            else read_import_loop f x d)
         else read_import_loop f x d
@@ -436,7 +434,7 @@ Definition read_imports (fuel : nat) (x : xstate) : xstate * res (list imp) :=
             Some (x, Ok (lt_imps t0 ++ [{| im_syms := lt_locals t0; im_maxid := N.of_nat (length (lt_locals t0)) |}]))
           end
         else None
-      | _ => Some (x, kp _)                                (* val.LocalSID with val nil *)
+      | _ => None                                          (* val == nil: not the append case *)
       end
     else None in
   match append_case with
@@ -716,18 +714,17 @@ End Reader.
 (* tie the knot: a local symbol table is read through the reader's own Next; inside it the
    context is never the top level, so the recursion is one level deep *)
 Definition x_fuel (x : xstate) : nat := t_fuel (x_tok x).
-Definition x_next_inner (pd : list N -> res dec) (pt : list N -> res (list N)) (kp : forall A, res A)
+Definition x_next_inner (pd : list N -> res dec) (pt : list N -> res (list N))
   (x : xstate) : xstate * res bool :=
-  x_next_with pd pt kp (fun x0 => (x0, Panic)) (x_fuel x) x.
-Definition x_next (pd : list N -> res dec) (pt : list N -> res (list N)) (kp : forall A, res A)
+  x_next_with pd pt (fun x0 => (x0, Panic)) (x_fuel x) x.
+Definition x_next (pd : list N -> res dec) (pt : list N -> res (list N))
   (x : xstate) : xstate * res bool :=
-  x_next_with pd pt kp (x_next_inner pd pt kp) (x_fuel x) x.
+  x_next_with pd pt (x_next_inner pd pt) (x_fuel x) x.
 
 (* ---- accessors of reader.go and the navigation interface -------------------------------------------------------- *)
 Section Api.
 Variable pd : list N -> res dec.
 Variable pt : list N -> res (list N).
-Variable kp : forall A : Type, res A.
 
 Definition x_dummy_next : xstate -> xstate * res bool := fun x0 => (x0, Panic).
 
@@ -735,7 +732,7 @@ Definition x_dummy_next : xstate -> xstate * res bool := fun x0 => (x0, Panic).
 Definition x_op_res (x : xstate) (o : rop) : xstate * res (list N) :=
   let wrong := (x, Ok t_err) in
   match o with
-  | ONext => match x_next pd pt kp x with
+  | ONext => match x_next pd pt x with
              | (x', Ok b) => (x', Ok [if b then 84 else 70])
              | (x', r) => (x', keep_bad r)
              end
@@ -772,10 +769,7 @@ Definition x_op_res (x : xstate) (o : rop) : xstate * res (list N) :=
             else match x_value x with
                  | XInt i => if in_int64 (show_int i) && in_int32 (show_int i)
                              then (x, Ok (73 :: dec_of_Z (show_int i))) else wrong
-                 | _ => match kp unit with                 (* IntValue on null.int: *i with i nil *)
-                        | Panic => (x, Panic)
-                        | _ => wrong
-                        end
+                 | _ => (x, Ok t_nil)                      (* (nil, nil) for null.int *)
                  end
   | OBigInt => if negb (x_type x =? TInt) then wrong
                else (x, Ok (match x_value x with XInt i => 73 :: dec_of_Z (show_int i) | _ => t_nil end))
